@@ -60,7 +60,9 @@ func (w *c16Workload) breadthFixture() {
 		AssetsRates: []esmtypes.DebtAssetsRates{{AssetID: w.assetID["ucmst"], Rates: 1_000_000}}})
 	in.app.EsmKeeper.SetParams(in.ctx, esmtypes.Params{Admin: []string{w.addr(0).String()}})
 	in.tx(0, "rewards.ext-stable-mint", &rewardstypes.ActivateExternalRewardsStableMint{AppId: c16AppHarbor, CswapAppId: c16AppSwap, CommodoAppId: c16AppLend,
-		TotalRewards: sdk.NewCoin("uharbor", sdk.NewInt(40_000_000)), DurationDays: 4, Depositor: w.addr(0).String(), AcceptedBlockHeight: 1})
+		// DurationDays 400: x/rewards/keeper/iter.go:482 counts an epoch per BLOCK (epoch.Count++ outside every condition) and pays only in
+		// blocks more than a day after the previous one; with a small number the programme is over before the first day gap
+		TotalRewards: sdk.NewCoin("uharbor", sdk.NewInt(40_000_000)), DurationDays: 400, Depositor: w.addr(0).String(), AcceptedBlockHeight: 1})
 	in.tx(0, "liquidationsV2.app-reserve-funds", &liqv2types.MsgAppReserveFundsRequest{AppId: c16AppHarbor, AssetId: w.assetID["ucmst"],
 		TokenQuantity: sdk.NewCoin("ucmst", sdk.NewInt(50_000_000)), From: w.addr(0).String()})
 	in.tx(0, "lend.fund-reserve", &lendtypes.MsgFundReserveAccounts{AssetId: w.assetID["ucmst"], Lender: w.addr(0).String(), Amount: sdk.NewCoin("ucmst", sdk.NewInt(30_000_000))})
